@@ -203,7 +203,26 @@ func genMoreFacts(facts map[string]interface{}) string {
 		}
 		tickLocked = append(tickLocked, [2]string{name, first + " ; " + second})
 	}
-	facts["more_facts"] = map[string]interface{}{"storage_fields": fields, "reader_assigns": assigns, "verify_accepts": accepts, "clock_reads": clockReads, "clock_dirs": clockDirs, "tick_locked": tickLocked}
+	// what the tick saves as the reader's position: the argument(s) of every SaveOffset call in tick()
+	var tickSaves []string
+	if fd, _ := findFuncOpt(nd, "BaseNodeService", "tick"); fd != nil {
+		ast.Inspect(fd.Body, func(n ast.Node) bool {
+			if ce, ok := n.(*ast.CallExpr); ok {
+				if se, ok := ce.Fun.(*ast.SelectorExpr); ok && se.Sel.Name == "SaveOffset" {
+					var as []string
+					for _, a := range ce.Args {
+						as = append(as, srcOf(a))
+					}
+					tickSaves = append(tickSaves, strings.Join(as, ", "))
+				}
+			}
+			return true
+		})
+	}
+	if len(tickSaves) == 0 {
+		die("client/services/node: tick() saves no offset")
+	}
+	facts["more_facts"] = map[string]interface{}{"tick_saves": tickSaves, "storage_fields": fields, "reader_assigns": assigns, "verify_accepts": accepts, "clock_reads": clockReads, "clock_dirs": clockDirs, "tick_locked": tickLocked}
 	var b strings.Builder
 	b.WriteString("-- GENERATED by /verif/translator from /repo storage/file_storage/fileStorage.go and client/services/node/node_service.go. DO NOT EDIT.\n")
 	b.WriteString("namespace Dc4bcVerif.Gen.MoreFacts\n\n")
@@ -227,6 +246,7 @@ func genMoreFacts(facts map[string]interface{}) string {
 		fmt.Fprintf(&b, "(%s, %s)", leanStr(tl[0]), leanStr(tl[1]))
 	}
 	b.WriteString("]\n\n")
+	fmt.Fprintf(&b, "/-- the argument of every SaveOffset call in tick(): what the poll loop saves as its position after a line -/\ndef tickSaves : List String := %s\n\n", q(tickSaves))
 	b.WriteString("end Dc4bcVerif.Gen.MoreFacts\n")
 	return b.String()
 }
